@@ -177,3 +177,21 @@ UNIT = dict(
            'lfrc.reset.destroy_iff_claimed': dict(src='replay_guard.cpp'), 'lfrc.reclaim.once': dict(src='replay_guard.cpp')},
   canaries=['add_nodes.chain', 'add_nodes.single', 'decrement.already_claimed', 'decrement.claimed', 'decrement.shared', 'decrement.underflow_value', 'fl_pop.after_retry', 'fl_pop.empty', 'fl_pop.node', 'fl_push.global', 'fl_push.local', 'g_acquire.fresh', 'g_acquire.mark_only', 'g_acquire.null_drop', 'g_acquire.replace', 'g_aie.changed_undone', 'g_aie.false_drop', 'g_aie.true', 'g_aie.true_null', 'g_copy_assign.gains', 'g_copy_assign.last_reference', 'g_copy_assign.same_object', 'g_copy_assign.self', 'g_copy_ctor.nonnull', 'g_ctor.mark_only', 'g_ctor.nonnull', 'g_move_assign.last_reference', 'g_move_assign.same_object', 'g_move_assign.self', 'g_move_ctor.nonnull', 'g_reclaim.empty', 'g_reclaim.last', 'g_reclaim.still_guarded', 'g_reset.destroys', 'g_reset.frees_already_destroyed', 'g_reset.mark_only', 'g_reset.shared', 'g_reset_composed.global', 'g_reset_composed.local', 'g_reset_composed.shared', 'g_swap.done', 'op_delete.freed', 'op_delete.still_guarded', 'op_new.fresh', 'op_new.reused', 'op_new_composed.fresh', 'op_new_composed.global', 'op_new_composed.local', 'op_new_composed.local_disabled', 'tl_dtor.empty', 'tl_dtor.hands_over', 'tl_pop.empty', 'tl_pop.longest', 'tl_pop.node', 'tl_push.full', 'tl_push.stored'],
 )
+
+# ---- SOLO termination (C16): three of the four functions (free_list::pop with its nested acquire loop did not finish within 20 min when its loops are kept: it stays INT-cut only and contributes no termination fact)
+# ---- the functions whose retry loops are cut by invariants above, lowered once more with their ORIGINAL loops; the SEQ harness of the
+#      function is run against that text (-DXV_SOLO remaps the name) with complete unwinding: the unwinding assertions are the termination obligations
+import copy as _copy, re as _re2
+_SOLO = {'decrement_refcnt': ('lfrc_decrement_refcnt', 'decrement_solo', 'h_decrement', ['lfrc_decrement_refcnt_solo.0:2']),
+         'g_acquire': ('lfrc_g_acquire', 'g_acquire_solo', 'h_g_acquire', ['lfrc_g_acquire_solo.0:2']),
+         'add_nodes': ('lfrc_fl_add_nodes', 'add_nodes_solo', 'h_add_nodes', ['lfrc_fl_add_nodes_solo.0:2'])}
+for _sp in list(UNIT['sources']):
+    if _sp['id'] in _SOLO:
+        _c = dict(_sp); _c['id'] = _sp['id'] + '_solo'; _c.pop('cut_loops', None)
+        _c['c_sig'] = _c['c_sig'].replace(_SOLO[_sp['id']][0] + '(', _SOLO[_sp['id']][0] + '_solo(')
+        _c['must_fire'] = {k: v for k, v in _sp.get('must_fire', {}).items() if k != 'cut_loop'}
+        UNIT['sources'].append(_c)
+for _fn, (_cn, _rid, _entry, _uw) in _SOLO.items():
+    UNIT['runs'].append(dict(id=_rid, entry=_entry, mode='SOLO', cls='shape-complete', defs={'XV_SOLO': 1}, unwindset=_uw, unwind_obligation='lfrc.%s.terminates' % _fn,
+                             note='original retry loop, no interference: complete after one iteration (unwinding assertion = termination obligation)'))
+    UNIT['obligations']['lfrc.%s.terminates' % _fn] = dict(deciding=True, text='[SOLO] without interference the retry loop of %s is left after its first iteration (weak CAS failures are interference)' % _fn)
